@@ -51,20 +51,20 @@ func ct_feMulGeneric(fe, a, b *Element) {
 	verif.Ensures(verif.ModEq(val51(&fe.inner), va.Mul(vb), fP()), "value = a*b mod p")
 }
 
-//verif:ob prop=C04,C06 name=feMulGeneric mode=int tags=purego,default prove=ct_feMulGeneric
+//verif:ob prop=C04,C06,C07 name=feMulGeneric mode=int tags=purego,default prove=ct_feMulGeneric
 func vh_feMulGeneric() {
 	a, b := anyElement("a"), anyElement("b")
 	var out Element
 	ct_feMulGeneric(&out, a, b)
 }
 
-//verif:ob prop=C04 name=feMulGeneric_aliased mode=int tags=purego prove=ct_feMulGeneric
+//verif:ob prop=C04,C06 name=feMulGeneric_aliased mode=int tags=purego prove=ct_feMulGeneric
 func vh_feMulGeneric_alias() {
 	a, b := anyElement("a"), anyElement("b")
 	ct_feMulGeneric(a, a, b)
 }
 
-//verif:ob prop=C04 name=feMulGeneric_square_aliased mode=int tags=purego prove=ct_feMulGeneric
+//verif:ob prop=C04,C06 name=feMulGeneric_square_aliased mode=int tags=purego prove=ct_feMulGeneric
 func vh_feMulGeneric_alias2() {
 	a := anyElement("a")
 	ct_feMulGeneric(a, a, a)
@@ -92,7 +92,7 @@ func pow2kContract(fe, t *Element, k uint) {
 //verif:contract for=internal/field.fePow2kGeneric group=fe
 func ct_fePow2kGeneric(fe, t *Element, k uint) { pow2kContract(fe, t, k) }
 
-//verif:ob prop=C04,C06 name=fePow2kGeneric mode=int tags=purego,default prove=ct_fePow2kGeneric split=k:1..2 bound=k_in_{1,2}_unrolled;_larger_k_by_the_loop-cut_obligation
+//verif:ob prop=C04,C06,C07 name=fePow2kGeneric mode=int tags=purego,default prove=ct_fePow2kGeneric split=k:1..2 bound=k_in_{1,2}_unrolled;_larger_k_by_the_loop-cut_obligation
 func vh_fePow2kGeneric() {
 	t := anyElement("t")
 	var out Element
@@ -114,7 +114,7 @@ func ct_reduce(fe *Element, limbs *[5]uint64) *Element {
 
 // reduce accepts EVERY limb vector.
 //
-//verif:ob prop=C04 name=reduce mode=int tags=purego,default prove=ct_reduce
+//verif:ob prop=C04,C07,C06 name=reduce mode=int tags=purego,default prove=ct_reduce
 func vh_reduce() {
 	var l [5]uint64
 	verif.AnyU64s("l", l[:])
@@ -122,7 +122,7 @@ func vh_reduce() {
 	ct_reduce(&out, &l)
 }
 
-//verif:ob prop=C04 name=reduce_aliased mode=int tags=purego prove=ct_reduce
+//verif:ob prop=C04,C06 name=reduce_aliased mode=int tags=purego prove=ct_reduce
 func vh_reduce_alias() {
 	e := anyElement("l")
 	ct_reduce(e, &e.inner)
@@ -143,14 +143,14 @@ func ct_Add(fe, a, b *Element) *Element {
 	return fe
 }
 
-//verif:ob prop=C04 name=Add mode=int tags=purego prove=ct_Add
+//verif:ob prop=C04,C07,C06 name=Add mode=int tags=purego prove=ct_Add
 func vh_Add() {
 	a, b := anyElement("a"), anyElement("b")
 	var out Element
 	ct_Add(&out, a, b)
 }
 
-//verif:ob prop=C04 name=Add_aliased mode=int tags=purego prove=ct_Add
+//verif:ob prop=C04,C06 name=Add_aliased mode=int tags=purego prove=ct_Add
 func vh_Add_alias() {
 	a := anyElement("a")
 	ct_Add(a, a, a)
@@ -170,14 +170,14 @@ func ct_Sub(fe, a, b *Element) *Element {
 	return fe
 }
 
-//verif:ob prop=C04 name=Sub mode=int tags=purego prove=ct_Sub
+//verif:ob prop=C04,C07,C06 name=Sub mode=int tags=purego prove=ct_Sub
 func vh_Sub() {
 	a, b := anyElement("a"), anyElement("b")
 	var out Element
 	ct_Sub(&out, a, b)
 }
 
-//verif:ob prop=C04 name=Sub_aliased mode=int tags=purego prove=ct_Sub
+//verif:ob prop=C04,C06 name=Sub_aliased mode=int tags=purego prove=ct_Sub
 func vh_Sub_alias() {
 	a, b := anyElement("a"), anyElement("b")
 	ct_Sub(b, a, b)
@@ -196,7 +196,7 @@ func ct_Neg(fe, t *Element) *Element {
 	return fe
 }
 
-//verif:ob prop=C04 name=Neg mode=int tags=purego prove=ct_Neg
+//verif:ob prop=C04,C06 name=Neg mode=int tags=purego prove=ct_Neg
 func vh_Neg() {
 	t := anyElement("t")
 	ct_Neg(t, t)
@@ -215,7 +215,7 @@ func ct_Mul121666(fe, t *Element) *Element {
 	return fe
 }
 
-//verif:ob prop=C04 name=Mul121666 mode=int tags=purego prove=ct_Mul121666
+//verif:ob prop=C04,C07,C06 name=Mul121666 mode=int tags=purego prove=ct_Mul121666
 func vh_Mul121666() {
 	t := anyElement("t")
 	var out Element
@@ -235,7 +235,7 @@ func ct_Square2(fe, t *Element) *Element {
 	return fe
 }
 
-//verif:ob prop=C04 name=Square2 mode=int tags=purego prove=ct_Square2 nouse=ct_fePow2kGeneric
+//verif:ob prop=C04,C06 name=Square2 mode=int tags=purego prove=ct_Square2 nouse=ct_fePow2kGeneric
 func vh_Square2() {
 	t := anyElement("t")
 	var out Element
@@ -244,7 +244,7 @@ func vh_Square2() {
 
 // SetBytes: all 2^256 strings; bit 255 ignored.
 //
-//verif:ob prop=C04,C10 name=SetBytes mode=int tags=purego
+//verif:ob prop=C04,C10,C07,C06 name=SetBytes mode=int tags=purego
 func vh_SetBytes() {
 	var in [32]byte
 	verif.AnyBytes("in", in[:])
@@ -255,7 +255,7 @@ func vh_SetBytes() {
 	verif.Assert(val51(&fe.inner).Eq(verif.IntLE(in[:]).Mod(verif.Pow2(255))), "value = le(in) mod 2^255")
 }
 
-//verif:ob prop=C04,C14 name=SetBytesWide mode=int tags=purego
+//verif:ob prop=C04,C14,C06 name=SetBytesWide mode=int tags=purego
 func vh_SetBytesWide() {
 	var in [64]byte
 	verif.AnyBytes("in", in[:])
@@ -280,7 +280,7 @@ func ct_ToBytes(fe *Element, out []byte) error {
 	return nil
 }
 
-//verif:ob prop=C04,C10 name=ToBytes mode=int tags=purego prove=ct_ToBytes use=ct_reduce
+//verif:ob prop=C04,C10,C07,C06 name=ToBytes mode=int tags=purego prove=ct_ToBytes use=ct_reduce
 func vh_ToBytes() {
 	fe := anyElement("fe")
 	var out [32]byte
@@ -289,7 +289,7 @@ func vh_ToBytes() {
 
 // ---- bit-precise selection primitives (BV mode) ----
 
-//verif:ob prop=C04,C08 name=ConditionalSelect mode=bv tags=purego
+//verif:ob prop=C04,C08,C06 name=ConditionalSelect mode=bv tags=purego
 func vh_CondSelect() {
 	a, b := anyElement("a"), anyElement("b")
 	choice := verif.AnyInt("choice")
@@ -301,7 +301,7 @@ func vh_CondSelect() {
 	}
 }
 
-//verif:ob prop=C04,C08 name=ConditionalAssign mode=bv tags=purego
+//verif:ob prop=C04,C08,C06 name=ConditionalAssign mode=bv tags=purego
 func vh_CondAssign() {
 	a, b := anyElement("a"), anyElement("b")
 	a0 := *a
@@ -313,7 +313,7 @@ func vh_CondAssign() {
 	}
 }
 
-//verif:ob prop=C04,C08 name=ConditionalSwap mode=bv tags=purego
+//verif:ob prop=C04,C08,C07,C06 name=ConditionalSwap mode=bv tags=purego
 func vh_CondSwap() {
 	a, b := anyElement("a"), anyElement("b")
 	a0, b0 := *a, *b
